@@ -31,8 +31,13 @@ func runClockCase(rq *request) M {
 	ev := M{"id": rq.ID, "ev": "Date", "fam": rq.Fam, "fn": "clock", "variant": variant}
 	inner := jsonata.MustCompile(`$millis()`)
 	exts := map[string]jsonata.Extension{
-		"slow":  {Func: func() float64 { time.Sleep(3 * time.Millisecond); return 0 }},
-		"inner": {Func: func() float64 { time.Sleep(2 * time.Millisecond); v, _ := inner.Eval(nil); f, _ := v.(float64); return f * 0 }},
+		"slow": {Func: func() float64 { time.Sleep(3 * time.Millisecond); return 0 }},
+		"inner": {Func: func() float64 {
+			time.Sleep(2 * time.Millisecond)
+			v, _ := inner.Eval(nil)
+			f, _ := v.(float64)
+			return f * 0
+		}},
 	}
 	src := `[$millis(), $slow(), $millis(), $toMillis($now()), $inner(), $millis(), $toMillis($now())]`
 	e := jsonata.MustCompile(src)
